@@ -91,22 +91,41 @@ func runWriter(c *WCase, x *sim.Ctx) *WResult {
 	data := c.Payload.Bytes()
 	var w writerAPI
 	x.Ev("new %s sinkplan=%+v", c.Format, c.Sink)
+	// A caller may keep one Properties value for all its writers and re-tune
+	// it for each: the writer has to take what it needs when it is created.
+	// (No scheduling point inside the constructor then: the value must stay
+	// as the creating task set it until the constructor returns.)
+	share := func(pp **lzma.Properties) {
+		sp, _ := x.Shared.(*lzma.Properties)
+		if sp == nil || *pp == nil {
+			return
+		}
+		*sp = **pp
+		*pp = sp
+		sink.OnCall = nil
+	}
 	res.NewPanic = guard(func() {
 		switch c.Format {
 		case "xz":
-			ww, err := c.XZ.lib().NewWriter(sink.Writer())
+			cfg := c.XZ.lib()
+			share(&cfg.Properties)
+			ww, err := cfg.NewWriter(sink.Writer())
 			res.NewErr = err
 			if err == nil {
 				w = ww
 			}
 		case "lzma":
-			ww, err := c.LZ.lib().NewWriter(sink.Writer())
+			cfg := c.LZ.lib()
+			share(&cfg.Properties)
+			ww, err := cfg.NewWriter(sink.Writer())
 			res.NewErr = err
 			if err == nil {
 				w = ww
 			}
 		case "lzma2":
-			ww, err := c.L2.lib().NewWriter2(sink.Writer())
+			cfg := c.L2.lib()
+			share(&cfg.Properties)
+			ww, err := cfg.NewWriter2(sink.Writer())
 			res.NewErr = err
 			if err == nil {
 				w = ww
@@ -115,6 +134,7 @@ func runWriter(c *WCase, x *sim.Ctx) *WResult {
 			sim.Infra("unknown format %q", c.Format)
 		}
 	})
+	sink.OnCall = x.Yield
 	x.Step("api", 1)
 	x.Ev("new -> err=%v panic=%v sinkcalls=%d img=%d", res.NewErr, res.NewPanic != nil, sink.Calls, len(sink.Image))
 	if res.NewPanic != nil {
